@@ -224,6 +224,22 @@ def check_index(sh, c, ix, what):
 		sh.violation('wrong-subcollection', case, dict(positions=pos), dict(len=len(got), dtype=str(got.dtype), kmerspec=repr(got.kmerspec),
 		             items=[np.asarray(got[j]).tolist() for j in range(len(got))]))
 		return
+	# a sub-collection obtained EARLIER must still hold what it held (results of two selections from one object are independent values)
+	prev = getattr(c, '_earlier', None)
+	if prev is not None:
+		pgot, ppos, pdesc, pwhat = prev
+		try:
+			still = len(pgot) == len(ppos) and all(np.asarray(pgot[j]).tolist() == L[p].tolist() for j, p in enumerate(ppos))
+		except Exception:
+			still = False
+		if not still:
+			sh.violation('earlier-subcollection-changed', dict(case, earlier_index=pdesc, earlier_what=pwhat), dict(positions=ppos),
+			             dict(items=[np.asarray(pgot[j]).tolist() for j in range(len(pgot))] if hasattr(pgot, '__len__') else None))
+			c._earlier = None
+			return
+		sh.count('earlier_results_rechecked')
+	if pos:
+		c._earlier = (got, list(pos), describe(ix), what)
 	if pos:
 		sh.nontrivial += 1
 	if any(p != q for p, q in zip(pos, sorted(pos))) or len(set(pos)) != len(pos):
@@ -549,6 +565,32 @@ def t_mutations(depth, maxlen):
 				sh.violation('source-list-mutation-leaked-into-collection', dict(state=list(state), event=['source-' + op]), list(state), [ident.get(id(x)) for x in real])
 			else:
 				sh.count('aliasing_checks')
+	# a slice of a list-backed collection is a NEW collection (as l[:] of a list is a new list): mutating either leaves the other alone
+	slices = [slice(None), slice(0, None), slice(None, 10 ** 9), slice(None, None, 1), slice(-10 ** 9, None), slice(1, None), slice(None, -1), slice(None, None, -1), slice(None, None, 2)]
+	for state in list(seen):
+		for sl in slices:
+			for who in ('original', 'slice'):
+				for op in ('append', 'pop', 'setitem', 'insert', 'delitem'):
+					real = SignatureList([arrs[s] for s in state], kspec(), dtype=np.dtype('u2'))
+					try:
+						part = real[sl]
+					except Exception:
+						continue
+					exp_part = tuple(list(state)[sl])
+					target, watched, wexp = (real, part, exp_part) if who == 'original' else (part, real, tuple(state))
+					try:
+						if op == 'append': target.append(arrs['c'])
+						elif op == 'pop': target.pop()
+						elif op == 'setitem': target[0] = arrs['c']
+						elif op == 'insert': target.insert(0, arrs['c'])
+						else: del target[0]
+					except (IndexError, AttributeError):
+						continue
+					sh.evals += 1
+					if tuple(ident.get(id(x)) for x in watched) != wexp:
+						sh.violation('slice-shares-state-with-its-source', dict(state=list(state), event=['slice', repr(sl), 'mutate-' + who, op]), list(wexp), [ident.get(id(x)) for x in watched])
+					else:
+						sh.count('aliasing_checks')
 	sh.states = len(seen)
 	sh.traces = sh.transitions      # every transition was executed on the real class
 	sh.extra = dict(bfs_depth=d, frontier_left=len(frontier))
@@ -636,11 +678,19 @@ def replay(case, kind=None):
 		return [v for v in vs if v['case'] == case][:1] or [v for v in vs if v['case']['n'] == case['n']][:1]
 	if 'index' in case:
 		with Coll(case['kind'], case['n']) as c:
+			if 'earlier_index' in case:
+				# the run that found the case had made many selections from this object before (anything the object keeps between selections,
+				# e.g. a scratch buffer, was already at its largest): one large selection first
+				try:
+					c.obj[list(range(case['n'])) * 3]
+				except Exception:
+					pass
+				check_index(sh, c, undescribe(case['earlier_index']), case.get('earlier_what', 'ints'))      # the earlier selection whose result is watched
 			check_index(sh, c, undescribe(case['index']), case['what'])
 	elif 'state' in case and kind == 'long-lived-object-disagrees-with-fresh-one':
 		vs = t_mutations(3, 4).violations
 		return [v for v in vs if v['kind'] == kind][:1]
-	elif 'state' in case and kind in ('mutation-leaked-into-source-list', 'source-list-mutation-leaked-into-collection'):
+	elif 'state' in case and kind in ('mutation-leaked-into-source-list', 'source-list-mutation-leaked-into-collection', 'slice-shares-state-with-its-source'):
 		vs = t_mutations(3, 4).violations
 		return [v for v in vs if v['kind'] == kind][:1]
 	elif 'state' in case:
